@@ -175,6 +175,8 @@ class Exec:
         re-played where the variable is branched on, over the values its operands had at the assignment.
         Only tests that bind nothing are accepted (no NULL test of a possibly-NULL lookup result)."""
         def pure(x):
+            if x[0] == "id":                # an optional argument used as a truth value
+                return x[1] in st.env and st.env[x[1]].kind in ("name", "darg")
             if x[0] == "call":
                 return x[1] in INT_TESTS and all(a[0] in ("id", "un", "cast") for a in x[2])
             if x[0] == "bin" and x[1] in ("&&", "||"):
